@@ -21,7 +21,8 @@ THEOREMS = ["C13_gate_sound", "C13_auth_sound", "C13_gate_unix_sound", "C13_gate
             "C13_served_unix_outside_known", "C13_served_http_outside_known", "C13_grant_many_eq_fold",
             "C13_revoke_many_eq_fold", "C13_dispatch_grant_many", "C13_grant_many_entry", "C13_revoke_many_entry",
             "C13_perm_commands_keep_active", "C13_grant_permission_keeps_active", "C13_revoke_permission_keeps_active",
-            "C13_dispatch_active_frame", "C13_never_reactivated"]
+            "C13_dispatch_active_frame", "C13_never_reactivated",
+            "C13_can_read_own_record", "C13_can_write_own_record", "C13_unknown_id_denied"]
 RULE = ("histories of probe lines against one engine process each (auth ON): (a) the full role-set x "
         "permission-entry table and random grant/revoke/revoke-key sequences through AuthManager with "
         "can_read/can_write/is_admin after every step; (b) parse_auth / verify_signature / session-token lines "
@@ -57,7 +58,7 @@ TRUSTED = [
 
 CLAIMED = True
 MANIFEST = {
- "level_text": "Theorems over the model (all stores, lines, users, no bound): the TCP/unix/HTTP gates dispatch only on hmac(key,msg) of an active user for the right message or a live token of an active user; can_read/can_write are equivalent to a declarative RBAC statement; key and permission revocation hold for the next request; the reserved ids cannot be created, exist in no reachable state and are never the identity a gate hands on (repaired by 139a8cf); REPLAY, REMEMBER, comparison and sequence queries check read permission for every event type they read (repaired by d146031, 8e7945c, 20fee3f, 79dcefb); the main statement is refuted with two witnesses (SHOW, FLUSH: still dispatched without identity) and proved outside those two command kinds for every user id, end to end through the TCP, unix and HTTP gates. The handler flags and constants of the model are regenerated from the Rust text; the model is run against the real AuthManager, gates (loopback TCP/HTTP, unix Connection) and dispatcher.",
+ "level_text": "Theorems over the model (all stores, lines, users, no bound): the permission cache answers for a user id from that user's own record only (two reachable states holding the same record under an id answer alike whatever other accounts exist - an id differing only in letter case lends nothing - and an id without an account is granted nothing); the TCP/unix/HTTP gates dispatch only on hmac(key,msg) of an active user for the right message or a live token of an active user; can_read/can_write are equivalent to a declarative RBAC statement; key and permission revocation hold for the next request; the reserved ids cannot be created, exist in no reachable state and are never the identity a gate hands on (repaired by 139a8cf); REPLAY, REMEMBER, comparison and sequence queries check read permission for every event type they read (repaired by d146031, 8e7945c, 20fee3f, 79dcefb); the main statement is refuted with two witnesses (SHOW, FLUSH: still dispatched without identity) and proved outside those two command kinds for every user id, end to end through the TCP, unix and HTTP gates. The handler flags and constants of the model are regenerated from the Rust text; the model is run against the real AuthManager, gates (loopback TCP/HTTP, unix Connection) and dispatcher.",
  "design_ref": "DESIGN.md §6 C13",
  "level_note": "Trusted: Coq kernel; p30_auth.py; extraction + p_auth.ml (incl. its HMAC-SHA256); the Rust harness; the Python policy oracle. HMAC and the parser are uninterpreted; Unicode ids/whitespace, rate limiting and the WebSocket fast path are not modelled; check_auth is reached through a loopback socket until hooks/C13-check-auth.diff is applied."
 }
